@@ -1098,6 +1098,9 @@ func tmxScenarios(c *ctx) []*tmxScn {
 }
 
 func genTmuxE2E(c *ctx, want func(*tmxScn) bool) {
+	if c.sample == nil {
+		c.sample = []string{} // bin/check slices the samples: never null, also when the group produces no case
+	}
 	root, err := os.MkdirTemp("", "tmx_")
 	if err != nil {
 		c.count("note:tmux-unavailable:no-tmpdir")
